@@ -380,6 +380,8 @@ def call(I, name, args, e):
             if isinstance(sb, SliceV): r_ = I.slice_segs(sb); sb = SeqV(sb.seq.elem, r_) if r_ is not None else None
             if isinstance(sa, SeqV) and isinstance(sb, SeqV) and sa.elem == sb.elem and not sa.stores and not sb.stores:
                 return IterV(SeqV(sa.elem, list(sa.segs) + list(sb.segs)), a0.by_ref, 'slice')
+        if isinstance(a0, IterV) and isinstance(b0, IterV):
+            r_ = IterV(None, False, kind='chain'); r_.parts = (a0, b0); return r_
         return I.top('chain of %r and %r' % (a0, b0), e)
     if n.endswith('as core::iter::Iterator>::enumerate') or n == 'core::iter::Iterator::enumerate':
         if isinstance(a0, IterV): return IterV(a0.seq, a0.by_ref, a0.kind, a0.maps + ['enumerate'], a0.enum)
@@ -395,6 +397,111 @@ def call(I, name, args, e):
         I.iterate(args[0], step, e)
         del I.frame().vars['$sum%d' % id(acc)]
         return acc.v
+    if (n.endswith('>::extend') and 'core::iter::Extend' in n) or n == 'core::iter::Extend::extend':
+        # vec.extend(iterator): one push per element, in order
+        out = a0
+        if not isinstance(out, SeqV): return I.top('extend of %r' % (out,), e)
+        src_ = deref(args[1])
+        if isinstance(src_, SeqV) and not isinstance(args[1], RefV) and src_.elem == out.elem and not src_.stores and not out.stores:
+            out.segs.extend(src_.segs); I.log.append(('mutate', n, e.get('sp'), _tgt(a0))); return UNIT     # extend(vec) / extend([a, b])
+        def step(el):
+            v = el
+            if out.is_bytes() or int_bits(out.elem):
+                v = deref(el)
+                if not is_term(v):
+                    I.top('extend of Vec<%s> by a non-scalar' % out.elem, e); return
+            elif isinstance(v, RefV) and not out.elem.startswith('&'): v = deref(v)
+            out.segs.append(('int', v, 1) if out.is_bytes() else ('elem', v))
+        I.iterate(args[1], step, e)
+        I.log.append(('mutate', n, e.get('sp'), _tgt(a0)))
+        return UNIT
+    if n in ('alloc::vec::Vec::<T, A>::reserve', 'alloc::vec::Vec::<T, A>::reserve_exact', 'alloc::vec::Vec::<T, A>::shrink_to_fit'):
+        return UNIT
+    if n in ('core::option::Option::<T>::ok_or', 'core::option::Option::<T>::ok_or_else') and isinstance(a0, EnumV):
+        if a0.variant == 'Some': return EnumV('core::result::Result', 'Ok', {'0': a0.fields['0']}, ty=ty)
+        if a0.variant == 'None': return EnumV('core::result::Result', 'Err', {'0': args[1]}, ty=ty)
+        ev = EnumV('core::result::Result', None, sym=('a', I.fresh_name('ok_or')), ty=ty)
+        ev.payload_cache[('Ok', '0')] = I.enum_payload(a0, 'Some', '0')
+        ev.some_cond = getattr(a0, 'some_cond', None) or ('isvar', a0.sym, 'Some'); ev.ok_variant = 'Ok'
+        return ev
+    if n == 'core::result::Result::<T, E>::ok' and isinstance(a0, EnumV):
+        if a0.variant == 'Ok': return opt_some(a0.fields['0'], ty)
+        if a0.variant == 'Err': return opt_none(ty)
+        ev = EnumV('core::option::Option', None, sym=('a', I.fresh_name('ok')), ty=ty)
+        ev.payload_cache[('Some', '0')] = I.enum_payload(a0, 'Ok', '0')
+        ev.some_cond = getattr(a0, 'some_cond', None) or ('isvar', a0.sym, 'Ok')
+        return ev
+    if n in ('core::result::Result::<T, E>::is_ok', 'core::result::Result::<T, E>::is_err') and isinstance(a0, EnumV):
+        c_ = TRUE if a0.variant == 'Ok' else FALSE if a0.variant == 'Err' else (getattr(a0, 'some_cond', None) or ('isvar', a0.sym, 'Ok'))
+        return c_ if n.endswith('is_ok') else bnot(c_)
+    if n in ('core::bool::<impl bool>::then_some', 'core::bool::<impl bool>::then') and is_term(a0):
+        c_ = sym.as_cond(a0)
+        if c_ == FALSE: return opt_none(ty)
+        v_ = args[1] if n.endswith('then_some') else None
+        if c_ == TRUE: return opt_some(v_ if v_ is not None else I.call_closure(args[1], [], e), ty)
+        if v_ is None: return I.top('bool::then with an undecided condition', e)
+        ev = EnumV('core::option::Option', None, sym=('a', I.fresh_name('then_some')), ty=ty)
+        ev.payload_cache[('Some', '0')] = v_; ev.some_cond = c_
+        return ev
+    if n in ('core::option::Option::<T>::map', 'core::option::Option::<T>::and_then') and isinstance(a0, EnumV):
+        if a0.variant == 'None': return opt_none(ty)
+        if a0.variant == 'Some':
+            r_ = I.call_closure(args[1], [a0.fields['0']], e)
+            return opt_some(r_, ty) if n.endswith('::map') else r_
+        if n.endswith('::map'):
+            ev = EnumV('core::option::Option', None, sym=('a', I.fresh_name('map')), ty=ty)
+            c_ = getattr(a0, 'some_cond', None) or ('isvar', a0.sym, 'Some')
+            # the closure is evaluated on the payload under the condition that there is one
+            box_ = {}
+            def some_(): box_['v'] = I.call_closure(args[1], [I.enum_payload(a0, 'Some', '0')], e); return UNIT
+            I.branch([(c_, some_), (TRUE, lambda: UNIT)])
+            if 'v' not in box_ or isinstance(box_['v'], Top): return I.top('Option::map with an unevaluable closure', e)
+            ev.payload_cache[('Some', '0')] = box_['v']; ev.some_cond = c_
+            return ev
+        return I.top('Option::and_then on a symbolic option', e)
+    if (n.endswith('as core::iter::Iterator>::any') or n.endswith('as core::iter::Iterator>::all') or n in ('core::iter::Iterator::any', 'core::iter::Iterator::all')):
+        is_any = n.endswith('any')
+        acc = Cell(FALSE if is_any else TRUE); key_ = '$anyall%d' % id(acc)
+        itv_ = deref(args[0])
+        sq_ = deref(itv_.seq) if isinstance(itv_, IterV) else None
+        if isinstance(sq_, SeqV) and any(sg[0] not in ('elem', 'int') or (sg[0] == 'int' and sg[2] != 1) for sg in (norm_segs(sq_.segs) if sq_.is_bytes() else sq_.segs)):
+            return I.top('any/all over a sequence of unknown length', e)
+        I.frame().vars[key_] = acc
+        def step(el):
+            r_ = I.call_closure(args[1], [el], e)
+            if not is_term(r_) or not is_term(acc.v): acc.v = I.top('any/all with a non-boolean predicate', e); return
+            acc.v = b_or(acc.v, sym.as_cond(r_)) if is_any else b_and(acc.v, sym.as_cond(r_))
+        I.iterate(args[0], step, e)
+        del I.frame().vars[key_]
+        return acc.v
+    if n in ('core::slice::<impl [T]>::chunks_exact', 'core::slice::<impl [T]>::chunks', 'core::slice::<impl [T]>::chunks_exact_mut', 'core::slice::<impl [T]>::chunks_mut') and is_term(args[1]) and args[1][0] == 'c' and args[1][1] > 0:
+        sq_ = a0; k_ = args[1][1]
+        base_sq = sq_.seq if isinstance(sq_, SliceV) else sq_
+        if isinstance(base_sq, SeqV):
+            lo_ = sq_.lo if isinstance(sq_, SliceV) else ZERO
+            hi_ = (sq_.hi if sq_.hi is not None else seqlen(base_sq.segs)) if isinstance(sq_, SliceV) else seqlen(base_sq.segs)
+            if is_term(lo_) and is_term(hi_) and lo_[0] == 'c' and hi_[0] == 'c' and (hi_[1] - lo_[1]) // k_ <= 64:
+                total_ = hi_[1] - lo_[1]
+                cnt_ = total_ // k_ if 'chunks_exact' in n else -(-total_ // k_)
+                els_ = [('elem', RefV(Cell(SliceV(base_sq, C(lo_[1] + i_ * k_), C(min(lo_[1] + (i_ + 1) * k_, hi_[1])))))) for i_ in range(cnt_)]
+                return IterV(SeqV('&[%s]' % base_sq.elem, els_), False)
+        return I.top('chunks of a sequence whose length is not a constant', e)
+    if n == 'core::iter::repeat':
+        r_ = IterV(None, False, kind='repeat'); r_.value = args[0]; return r_
+    if (n.endswith('as core::iter::Iterator>::take') or n == 'core::iter::Iterator::take') and isinstance(a0, IterV) and a0.kind == 'repeat' and is_term(args[1]):
+        v_ = a0.value
+        if is_term(v_) and int_bits(norm_ty(I.resolve_ty((e.get('generics') or ['?'])[0]))) == 8 or (is_term(v_) and 'Repeat<u8>' in norm_ty(I.resolve_ty(e['args'][0].get('ty', '')))):
+            return IterV(SeqV('u8', [('rep', args[1], None, (('int', v_, 1),))]), False)
+        if args[1][0] == 'c' and args[1][1] <= 64:
+            return IterV(SeqV('?', [('elem', fcopy(v_)) for _ in range(args[1][1])]), False)
+        return I.top('repeat(..).take(n) of a non-byte value with a symbolic count', e)
+    mc_ = re.match(r'^core::char::methods::<impl char>::(is_ascii_hexdigit|is_ascii_digit|is_ascii_uppercase|is_ascii_lowercase|is_ascii_alphabetic|is_ascii_alphanumeric)$', n) or \
+          re.match(r'^core::num::<impl u8>::(is_ascii_hexdigit|is_ascii_digit|is_ascii_uppercase|is_ascii_lowercase|is_ascii_alphabetic|is_ascii_alphanumeric)$', n)
+    if mc_ and is_term(a0):
+        def in_(lo_, hi_): return b_and(cmp('le', C(lo_), a0), cmp('le', a0, C(hi_)))
+        dg, up, lw = in_(48, 57), in_(65, 90), in_(97, 122)
+        return {'is_ascii_hexdigit': b_or(dg, b_or(in_(65, 70), in_(97, 102))), 'is_ascii_digit': dg, 'is_ascii_uppercase': up, 'is_ascii_lowercase': lw,
+                'is_ascii_alphabetic': b_or(up, lw), 'is_ascii_alphanumeric': b_or(dg, b_or(up, lw))}[mc_.group(1)]
     if n.endswith('as core::iter::Iterator>::collect') or n == 'core::iter::Iterator::collect':
         base_, ga_ = split_generics(ty)
         if base_ == 'alloc::vec::Vec' and ga_ and isinstance(deref(args[0]), IterV):
@@ -566,6 +673,12 @@ def call(I, name, args, e):
             if a0[0] == 'c' and args[1][0] == 'c': return C(a0[1] ** args[1][1])
             return I.top('pow', e)
         if op == 'swap_bytes': return ('call', 'swap_bytes%d' % bits, a0)
+        if op == 'div_ceil' and is_term(a0) and is_term(args[1]) and args[1][0] == 'c' and args[1][1] > 0:
+            return div(add(a0, C(args[1][1] - 1)), args[1]) if a0[0] != 'c' else C(-(-a0[1] // args[1][1]))
+        if op == 'next_multiple_of' and is_term(a0) and is_term(args[1]) and args[1][0] == 'c' and args[1][1] > 0:
+            return mul(div(add(a0, C(args[1][1] - 1)), args[1]), args[1]) if a0[0] != 'c' else C(-(-a0[1] // args[1][1]) * args[1][1])
+        if op == 'abs_diff' and is_term(a0) and is_term(args[1]):
+            return ite(cmp('le', args[1], a0), sub(a0, args[1]), sub(args[1], a0))
         if op == 'checked_sub':
             c = cmp('le', args[1], a0)
             r = sub(a0, args[1])
